@@ -130,6 +130,6 @@ NATIVES = []
 AUX_VIOLATION = True    # no native oracle: a failing loop-rule obligation is reported (no-failing-input-found), see DESIGN §4
 TRUSTED = ['cbmc 6.11.0', 'lowering rules of specs/C07/spec.py']
 NOT_DECIDED = ['FIFO per producer across stalls; "nothing lost or duplicated" as a whole-history property (the per-call step contracts + the mark-protocol lemmas are what is proved)',
-               'the RingChannel / FlexRingChannel notification protocol (Dekker fence, idler/pending counters, semaphore): memory-model and schedule facts',
+               'end-to-end liveness of the RingChannel notification (the step contracts of recv/send/push_backoff/notify_senders are proved; that they compose needs the fence / seq_cst ordering: a memory-model fact)',
                'send/recv wrappers (pause loops) and the SPSC push_batch/pop_batch memcpy lambdas (the piece layout they receive is proved)', 'memory ordering (sequentially consistent model)']
 ASSUMPTIONS = ['rely: tail/head only grow; another thread writes a slot only between its own claim and publication']
